@@ -43,6 +43,10 @@ func c20Alphabet() []rioRec {
 		// only used by the dedicated large-record cases (not part of the enumerated alphabet)
 		{"i20000", incompressible(20000, 31)},
 		{"i2100000", incompressible(2100000, 32)},
+		{"i127", incompressible(127, 33)},
+		{"i128", incompressible(128, 34)},
+		{"i16383", incompressible(16383, 35)},
+		{"i16384", incompressible(16384, 36)},
 	}
 }
 
@@ -51,7 +55,7 @@ func (c c20) Run(ctx *core.Ctx) error {
 	if ctx.Tier == "thorough" {
 		maxLen = 5
 	}
-	na := len(c20Alphabet()) - 2 // the two large records are not enumerated
+	na := len(c20Alphabet()) - 6 // the large and the boundary-length records are not enumerated
 	var cases []json.RawMessage
 	var rec func(cur []int)
 	rec = func(cur []int) {
@@ -106,7 +110,7 @@ func (c c20) Run(ctx *core.Ctx) error {
 	ctx.Ev.Bounds["seek_programs_max_length"] = seekMax
 	// stored lengths whose base-128 encoding needs 3 and 4 groups (>= 2^14 and >= 2^21 bytes): alphabet indexes 6 and 7
 	for comp := 0; comp < 4; comp++ {
-		for _, recs := range [][]int{{6}, {2, 6, 2}, {6, 6}, {7}, {2, 7, 2}} {
+		for _, recs := range [][]int{{6}, {2, 6, 2}, {6, 6}, {7}, {2, 7, 2}, {8}, {9}, {8, 9, 2}, {10}, {11}, {10, 11, 2}} {
 			cases = append(cases, core.J(c20Case{Kind: "file", Recs: recs, Comp: comp}))
 		}
 	}
